@@ -46,14 +46,27 @@ func zzH16body() {
 	zzAssume(zzAnd(rlife > 0, rlife < maxLife))
 	deprecated := zzNondetBool("deprecated")
 
+	// the clock may advance between two readings taken while one RA is built:
+	// every reading handed out is recorded
 	var now time.Time
+	var readings []time.Time
+	moving := zzParam("moving") == 1
+	clock := func() time.Time {
+		if moving && len(readings) > 0 {
+			t := zzNondetInstant("reread", mono)
+			zzAssume(zzNot(t.Before(now)))
+			now = t
+		}
+		readings = append(readings, now)
+		return now
+	}
 	p := &Prefix{
 		Prefix: netip.MustParsePrefix("2001:db8::/64"), ValidLifetime: valid, PreferredLifetime: pref,
-		Epoch: epoch, Deprecated: deprecated, TimeNow: func() time.Time { return now },
+		Epoch: epoch, Deprecated: deprecated, TimeNow: clock,
 	}
 	r := &Route{
 		Prefix: netip.MustParsePrefix("2001:db8::/48"), Lifetime: rlife,
-		Epoch: epoch, Deprecated: deprecated, TimeNow: func() time.Time { return now },
+		Epoch: epoch, Deprecated: deprecated, TimeNow: clock,
 	}
 	var lastV, lastP, lastR time.Duration
 	for k := 0; k < 3; k++ {
@@ -62,6 +75,7 @@ func zzH16body() {
 			zzAssume(zzNot(t.Before(now)))
 		}
 		now = t
+		readings = nil
 		ra := &ndp.RouterAdvertisement{}
 		zzAssert(p.Apply(ra) == nil, "prefix-apply-ok")
 		zzAssert(r.Apply(ra) == nil, "route-apply-ok")
@@ -76,9 +90,15 @@ func zzH16body() {
 			zzAssert(ri.RouteLifetime == rlife, "constant-route-lifetime")
 			continue
 		}
-		zzAssert(pi.ValidLifetime == zzRemaining(epoch, valid, now), "valid-is-time-remaining")
-		zzAssert(pi.PreferredLifetime == zzRemaining(epoch, pref, now), "preferred-is-time-remaining")
-		zzAssert(ri.RouteLifetime == zzRemaining(epoch, rlife, now), "route-is-time-remaining")
+		// the prefix option describes one instant: some reading taken while it
+		// was built explains both of its lifetimes (likewise the route)
+		okP, okR := false, false
+		for _, rd := range readings {
+			okP = zzOr(okP, zzAnd(pi.ValidLifetime == zzRemaining(epoch, valid, rd), pi.PreferredLifetime == zzRemaining(epoch, pref, rd)))
+			okR = zzOr(okR, ri.RouteLifetime == zzRemaining(epoch, rlife, rd))
+		}
+		zzAssert(okP, "prefix-lifetimes-are-time-remaining-at-one-instant")
+		zzAssert(okR, "route-lifetime-is-time-remaining")
 		zzAssert(zzAnd(pi.PreferredLifetime >= 0, pi.PreferredLifetime <= pi.ValidLifetime), "preferred-within-valid")
 		zzAssert(ri.RouteLifetime >= 0, "route-non-negative")
 		if k > 0 {
